@@ -40,7 +40,7 @@ func c13Property(t *rapid.T, st *Stats) {
 	if err != nil {
 		t.Skip("setup failed")
 	}
-	res, finished := runCProgram(e.srv, u, prog, 60*time.Second)
+	res, finished := runCProgram(e.srv, u, prog, 15*time.Second)
 	kinds := map[string]bool{}
 	for _, r := range res {
 		kinds[r.Op.Kind] = true
